@@ -494,7 +494,7 @@ def run_args(ctx):
     ctx.require_actions("AmpWireArgMC", ["EncodeOk", "EncodeRefuse", "Decode"])
     traces = [run_arg(c) for c in arg_class_cases()]
     ctx.extra["arg_class_cases"] = len(traces)
-    for _ in range(ctx.pick(600, 30000)):
+    for _ in range(ctx.pick(600, 20000)):
         traces.append(run_arg(rand_arg_case(ctx.rng)))
     for t in traces:
         ctx.note_trace(t, nontrivial=len(t["ev"]) >= 2)
@@ -722,7 +722,7 @@ def run(ctx):
     ctx.exhaustive = True
     ctx.extra["class_configs"] = ncfg
     ctx.extra["class_config_shapes"] = [list(s) for s in shapes]
-    nrand = ctx.pick(1200, 40000)
+    nrand = ctx.pick(1200, 25000)
     for i in range(nrand):
         cfg = rand_cfg(ctx.rng)
         traces.append(run_wire(cfg, rand_schedule(cfg, ctx.rng), sender=ctx.rng.choice(["amp", "bbp"])))
